@@ -58,6 +58,10 @@ func seqProfile(prop string, cas int, tier string) Profile {
 		p.FsckEvery = 6
 		p.RestartEvery = 25
 		p.DeleteAll = true
+		if cas%4 == 3 {
+			p.NearFull = true
+			p.DiskBlocks = []uint64{1700, 2500}[(cas/4)%2]
+		}
 		p.W[OpRemove] *= 2
 		p.W[OpRmdir] *= 2
 		p.W[OpRename] *= 2
@@ -192,6 +196,10 @@ func concCfg(prop string, cas int, tier string) ConcCfg {
 	c.Focus = cas%4 == 3
 	if tier == "thorough" {
 		c.Hist = 50
+	}
+	if prop == "C05" {
+		c.BigFile = true
+		c.BigBias = cas%2 == 0
 	}
 	if prop == "C14" {
 		c.NoCheck = true
@@ -415,7 +423,7 @@ func propSpecs() map[string]PropSpec {
 		}})
 	add(PropSpec{ID: "C05", Level: "exploration", Classes: []string{"leak", "crash"},
 		Rule: "build-then-delete sequences; conservation (marked = reachable, allocators = bitmaps, no half-freed inode) at shrinker-idle quiescence every 6 ops, after restarts, and after deleting everything; distinct = distinct on-disk state hashes checked",
-		Plan: withConc(withCrash(seqPlan("C05", 32, 600), "C05", 4, 60), "C05", 12, 200, false)})
+		Plan: withConc(withCrash(seqPlan("C05", 32, 600), "C05", 4, 60), "C05", 24, 300, false)})
 	add(PropSpec{ID: "C08", Level: "exploration", Classes: []string{"handle", "reply", "crash"},
 		Rule: "inode-reuse-heavy sequences with restarts; every handle bound to one object; a pool of dead handles presented to every procedure and handle position; distinct = distinct (procedure, outcome, argument class) triples incl. deadprobe (procedure, position, reused?) classes",
 		Plan: seqPlan("C08", 32, 600)})
